@@ -468,18 +468,22 @@ def ParamHdrs.get (h : ParamHdrs) (name : Bytes) : Bytes :=
 def ParamHdrs.set (h : ParamHdrs) (name : Bytes) (v : Bytes) : ParamHdrs :=
   (lowerBytes name, v) :: h.filter (fun e => e.1 != lowerBytes name)
 
+/-- The value `generateParamHeaders` computes for one binding (`none` = the loop `continue`s). -/
+def genValue (c : B64) (a : Args) (b : Binding) : Option Bytes :=
+  match a.lookup b.path with
+  | none => none
+  | some .null => none
+  | some v => (unmarshalPrimitive v).map (encodeHeaderValue c)
+
+def genStep (c : B64) (a : Args) (acc : ParamHdrs) (b : Binding) : ParamHdrs :=
+  match genValue c a b with
+  | none => acc
+  | some v => acc.set b.header v
+
 /-- `generateParamHeaders(tool, params)`: the headers the client adds, in binding order. -/
 def generateParamHeaders (c : B64) (p : Props) (a : Args) : ParamHdrs :=
   match a with
-  | .obj _ =>
-    (bindings p).foldl (fun acc b =>
-      match a.lookup b.path with
-      | none => acc
-      | some .null => acc
-      | some v =>
-        match unmarshalPrimitive v with
-        | none => acc
-        | some pv => acc.set b.header (encodeHeaderValue c pv)) []
+  | .obj _ => (bindings p).foldl (genStep c a) []
   | _ => []
 
 inductive PErr where
@@ -643,6 +647,12 @@ def msgGate (stateless : Bool) (version : Bytes) (m : Msg) : Option Outcome :=
       else none
     else none
 
+/-- `!isBatch && len(incoming) == 1`: the single message of a non-batch body (also what `DecodeMessage` yields for SSE). -/
+def soleMsg (r : Req) : Option Msg :=
+  match r.content with
+  | .msgs false [m] => some m
+  | _ => none
+
 /-- `streamableServerConn.servePOST` from the top to the enqueue.  `bodyRead` = the handler has already read the
 body (stateless: `ephemeralConnectOpts`), so the 413 arm cannot fire here. -/
 def servePOST (c : B64) (stateless bodyRead : Bool) (r : Req) : Outcome :=
@@ -656,9 +666,9 @@ def servePOST (c : B64) (stateless bodyRead : Bool) (r : Req) : Outcome :=
       else match l.findSome? (msgGate stateless r.version) with
         | some o => o
         | none =>
-          let hdr : Option MErr := match isBatch, l with
-            | false, [m] => validateMcpHeaders c r.version r.mcpMethod r.mcpName r.paramHdrs m
-            | _, _ => none
+          let hdr : Option MErr := match soleMsg r with
+            | some m => validateMcpHeaders c r.version r.mcpMethod r.mcpName r.paramHdrs m
+            | none => none
           match hdr with
           | some _ => rejRpc 400 codeHeaderMismatch
           | none => .dispatched (l.any (fun m => m.isReq && m.isCall))
@@ -710,10 +720,9 @@ def serveSSE (r : Req) : Outcome :=
        | .none => rej 400
        | .unknown => rej 404
        | .known =>
-         match r.content with
-         | .msgs false [m] =>
-           if m.isReq && m.check ≠ .ok then rej 400 else .dispatched false
-         | _ => rej 400)
+         match soleMsg r with
+         | some m => if m.isReq && m.check ≠ .ok then rej 400 else .dispatched false
+         | none => rej 400)
     | .get => .served 200
     | _ => .reject 405 none (some allowGetPost)
 
